@@ -1,5 +1,9 @@
 //go:build verif
 
+// crypto APIs must not consume a random extra byte from the seeded test reader
+// (crypto/internal/rand.CustomReader calls MaybeReadByte under the old default).
+//go:debug cryptocustomrand=0
+
 package main
 
 import (
